@@ -466,7 +466,8 @@ def c03(sc, V):
                 in_kill = any(m[0] == "ev" and m[2] == "kill" and m[3] == l[1] for m in s.lines[i + 1:i + 3])
                 is_stop = l[2] != 9 and in_kill and s.cmd() not in ("signal",) and cfg.get("stop_children") and \
                     not any(x.cmd() == "set" for x in V[:s.n + 1])
-                is_final = l[2] == 9 and s.kind() == "wake"
+                is_final = l[2] == 9 and s.kind() == "wake" and cfg.get("stop_children") and \
+                    not any(x.cmd() == "set" for x in V[:s.n + 1])
                 if is_stop or is_final:
                     got = set(m[1] for m in s.lines if m[0] == "sig" and m[2] == l[2])
                     lost = [k for k in kids if k not in got]
